@@ -144,6 +144,8 @@ class SynEngine:
                 op['f'] = [{'at': f'pool.call#{rng.choice((1, 1, 2))}', 'kind': rng.choice(('timeout', 'timeout', 'death'))}]
             elif rng.random() < cfg['fault_rate'] * 0.3:
                 op['f'] = [{'at': 'sat.solve#1', 'kind': 'backend-error'}]
+            elif rng.random() < cfg['fault_rate'] * 0.3:
+                op['f'] = [{'at': f'idpool.id#{rng.choice((1, 2, 5, 17, 40, 90, 200, 400))}', 'kind': 'alloc-failure'}]
             ops.append(op)
         return {'cfg': cfg, 'ops': ops}
 
@@ -293,7 +295,15 @@ class SynEngine:
                 fr = rng.randrange(to)
                 cons['forbid'].add((fr, to))
                 cons_calls.append(('forbid_wire', fr, to))
+        alloc_fault = any(f.get('kind') == 'alloc-failure' for f in op.get('f', ()))
+        if alloc_fault:
+            # the allocation fails somewhere inside the first construction of the CNF; constraints (which also touch the
+            # variable pool) are left out so that the fault lands in get_cnf()/find_circuit(), not in a half-applied setter
+            cons = {'fix': {}, 'forbid': set(), 'normalized': normalized}
+            cons_calls = []
         time_limit = rng.choice((None, None, 0, 1, 15, 15))
+        if alloc_fault:
+            time_limit = rng.choice((None, 0))
         solver = rng.choice(('default', 'minisat22', 'glucose3', 'cadical153'))
         desc = (f'n={n} m={m} N={N} basis={bdesc} norm={normalized} model={model_kind} dc={dc_style} '
                 f'table={["".join("*" if x == DontCare else str(int(x)) for x in r) for r in table]} '
@@ -314,11 +324,16 @@ class SynEngine:
                     del basis_arg[rng.randrange(len(basis_arg)):]
                 st.bump('caller-changed-its-basis-list-after-creating-the-finder')
             if rng.random() < 0.3:
-                finder.get_cnf()
-                st.bump('get_cnf-before-constraints')
+                try:
+                    finder.get_cnf()
+                    st.bump('get_cnf-before-constraints')
+                except MemoryError:
+                    if not alloc_fault:
+                        raise
+                    st.bump('alloc-failure-inside-get_cnf')
             # a deliberately invalid constraint now and then: it must be rejected, and a rejected call imposes
             # nothing - the caller catches the error and goes on with the same finder
-            if internal and rng.random() < 0.12:
+            if internal and rng.random() < 0.12 and not alloc_fault:
                 bad = rng.choice(('absent', 'absent-pred', 'nopred', 'order', 'wire-order', 'wire-absent', 'not-a-two-input-type'))
                 gt = {'gate_type': self.GT[rng.choice(BIN_TYPES)]} if rng.random() < 0.6 else {}
                 if bad == 'not-a-two-input-type' and internal[-1] < 2:
@@ -391,6 +406,12 @@ class SynEngine:
         value = [v & cmask for v, cmask in zip(vals, care)]
         nviol0 = len(self.res.violations)
         faulted = None
+        if alloc_fault and isinstance(exc, MemoryError):
+            # nothing was answered; the caller tries again with the same finder, now without the fault
+            st.bump('alloc-failure-inside-find_circuit')
+            self.ev['out'] = 'fault:alloc-failure'
+            result, exc, solves, pools = self._retry_after_fault(finder, solver)
+            faulted = 'alloc-failure'
         if any(f.get('kind') == 'backend-error' for f in op.get('f', ())) and solves:
             # the solver back end failed inside the job.  An exception that says so is fine; "no solution" or a circuit is
             # an answer and is judged like any other (below).  Then the fault is over and the same finder is asked again.
